@@ -55,7 +55,7 @@ def pure_pred(name, v):
 
 
 BUILTINS = {"int": int, "str": str, "float": float, "list": list, "dict": dict, "tuple": tuple, "set": set,
-            "object": object, "O": object, "bool": bool, "bytes": bytes, "NoneType": type(None),
+            "object": object, "O": object, "bool": bool, "type": type, "bytes": bytes, "NoneType": type(None),
             "Sequence": collections.abc.Sequence, "Collection": collections.abc.Collection,
             "Mapping": collections.abc.Mapping, "Iterable": collections.abc.Iterable}
 
@@ -149,6 +149,8 @@ class Sem:
 
     # R1: reference instance relation
     def instance(self, v, t):
+        if t == "type":  # bare type behaves as type[object]
+            t = ["type", "O"]
         if isinstance(t, str):
             return isinstance(v, self.cls(t))
         op, *rest = t
@@ -245,10 +247,42 @@ class Sem:
     def is_dependent(self, t):
         return not isinstance(t, str) and t[0] in ("lit", "dep", "tuple", "regexp", "startswith", "endswith", "haskey", "gen")
 
+    def spec_subtype(self, x, y):
+        """Between the arguments of two type[...] annotations."""
+        if isinstance(y, str):
+            cy = self.cls(y)
+            cx = self.cls(x if isinstance(x, str) else x[1])
+            return issubclass(cx, cy)
+        if isinstance(x, str):
+            return False  # a bare class is not below a parametrised generic
+        return (issubclass(self.cls(x[1]), self.cls(y[1])) and len(x) == len(y)
+                and all(self.spec_subtype(p, q) for p, q in zip(x[2:], y[2:])))
+
     # R2: "a is the same as or more specific than b"
     def leq(self, a, b):
+        if a == "type":
+            a = ["type", "O"]
+        if b == "type":
+            b = ["type", "O"]
         if a == b:
             return True
+        ta = not isinstance(a, str) and a[0] == "type"
+        tb = not isinstance(b, str) and b[0] == "type"
+        if ta and tb:
+            if self.spec_subtype(a[1], b[1]):
+                return True
+            if self.spec_subtype(b[1], a[1]):
+                return False
+            xa, xb = a[1], b[1]
+            oa = xa if isinstance(xa, str) else xa[1]
+            ob = xb if isinstance(xb, str) else xb[1]
+            if oa != ob and not (isinstance(xa, str) and isinstance(xb, str)):
+                raise Abstain("type[...] annotations with different generic origins")
+            return False
+        if ta:
+            return isinstance(b, str) and self.cls(b) is object
+        if tb:
+            return False
         sa, sb = isinstance(a, str), isinstance(b, str)
         if sa and sb:
             return issubclass(self.cls(a), self.cls(b))
